@@ -92,6 +92,7 @@ type FuncSpec struct {
 	Props    []string
 	Requires []Clause
 	Ensures  []Clause
+	OnSend   []SendClause // step contracts: must hold for every value sent on the named channel
 	Trusts   []Clause // postconditions assumed at call sites but not checked against the body (listed as assumptions)
 	Loops    map[int]*LoopSpec
 	Lets     []LetSpec
@@ -111,6 +112,11 @@ type FuncSpec struct {
 	Bounded  string
 	Unroll   int
 	Options  map[string]string
+}
+
+type SendClause struct {
+	Chan string
+	Clause
 }
 
 type LetSpec struct {
@@ -480,6 +486,25 @@ func (ss *SpecSet) parseFile(file, pkg, src string) error {
 				return fail(sl.line, "unroll: %v", err)
 			}
 			curLoop.Unroll = n
+		case "onsend":
+			// onsend <channel variable> [label]: <expr over `sent` and the locals in scope at the send>
+			if curF == nil {
+				return fail(sl.line, "onsend outside func")
+			}
+			chName, r := splitWord(rest)
+			label := ""
+			r = strings.TrimSpace(r)
+			if strings.HasPrefix(r, "[") {
+				cl := strings.Index(r, "]")
+				label = r[1:cl]
+				r = strings.TrimSpace(r[cl+1:])
+			}
+			r = strings.TrimPrefix(r, ":")
+			e, err := ParseExpr(r)
+			if err != nil {
+				return fail(sl.line, "onsend: %v", err)
+			}
+			curF.OnSend = append(curF.OnSend, SendClause{Chan: strings.TrimSuffix(chName, ":"), Clause: Clause{Label: label, Text: strings.TrimSpace(r), E: e, Line: sl.line}})
 		case "inline":
 			if curF != nil {
 				curF.Inline = true
